@@ -190,7 +190,9 @@ func main() {
 				post = append(post, "tick 1")
 			}
 			for _, c := range conns {
-				post = append(post, fmt.Sprintf("handle %d", c), fmt.Sprintf("handle %d", c))
+				if c > 0 {
+					post = append(post, fmt.Sprintf("handle %d", c), fmt.Sprintf("handle %d", c))
+				}
 			}
 			for _, sid := range sids {
 				pc++
@@ -270,7 +272,11 @@ func main() {
 					seenConc = true
 					for i, part := range strings.Split(ev, " | ") {
 						if i > 0 {
-							c, _ := strconv.Atoi(strings.Fields(part)[0])
+							pf := strings.Fields(part)
+							c, _ := strconv.Atoi(pf[0])
+							if len(pf) > 1 && pf[1] == "hangup" {
+								c = -c
+							}
 							conns = append(conns, c)
 						}
 					}
@@ -380,6 +386,9 @@ func execEvent(w *World, f []string) {
 				continue
 			}
 			c, _ := strconv.Atoi(pf[0])
+			if len(pf) > 1 && pf[1] == "hangup" {
+				c = -c
+			}
 			conns = append(conns, c)
 		}
 		w.Conc(conns, forced)
